@@ -15,7 +15,12 @@ Open Scope N_scope.
 Inductive hop9 :=
 | HBatch (ops : list op) (cpubs : list (list N * list N))   (* concurrent publishes: topic, receivers (sorted) *)
 | HPub9 (t : list N) (received : list N)
-| HRetQ9 (f : list N) (tags : list N).
+| HRetQ9 (f : list N) (tags : list N)
+(* one goroutine publishes retained messages with tags 1..k on topic t (QoS qos, never an empty payload) while another
+   reads Retained(t) over and over.  In every order of these operations the topic has exactly one retained message at
+   every moment, and the single writer's messages are stored in order: no read may come back empty, the tags read
+   never go back. *)
+| HReplace (t : list N) (qos k nreads nempty : N) (monotone : bool).
 
 Record case9 := mkCase9 { hops9 : list hop9; ran9 : bool }.
 
@@ -45,6 +50,8 @@ Fixpoint check9 (n : node) (hs : list hop9) : bool :=
       && check9 (fold_left step ops n) r
   | HPub9 t recv :: r => list_eqb (receivers t n) recv && check9 n r
   | HRetQ9 f tags :: r => list_eqb (sortN (map rkey (ret_search_top (split f) n))) tags && check9 n r
+  | HReplace t q k nr ne mono :: r =>
+      (0 <? nr) && (ne =? 0) && mono && check9 (step n (ORetain t (mkMsg k q false) false true)) r
   end.
 
 Definition case_ok9 (c : case9) : bool := ran9 c && check9 empty_node (hops9 c).
@@ -71,4 +78,6 @@ Fixpoint first_bad9 (i : nat) (n : node) (hs : list hop9) : option (nat * list N
   | HRetQ9 f tags :: r =>
       if list_eqb (sortN (map rkey (ret_search_top (split f) n))) tags then first_bad9 (S i) n r
       else Some (i, sortN (map rkey (ret_search_top (split f) n)))
+  | HReplace t q k nr ne mono :: r =>
+      if (0 <? nr) && (ne =? 0) && mono then first_bad9 (S i) (step n (ORetain t (mkMsg k q false) false true)) r else Some (i, [ne])
   end.
